@@ -300,6 +300,13 @@ def run_case(desc):
             foreign = True
         else:
             foreign = False
+        if mount == "direct" and desc["seed"] % 7 == 0:
+            # ... and next to it the staging file of a writer that was killed earlier, longer than the value: it must not leak into what is stored
+            with open(str(base) + ".STAGING", "wb") as f:
+                f.write(b"leftover of a killed writer \x00\xff" * r.randint(2, 60))
+            leftover = True
+        else:
+            leftover = False
         nwrites = r.choice([1, 1, 2, 3])
         prev = None
         for w in range(nwrites):
@@ -455,7 +462,7 @@ def run_case(desc):
         dig = hashlib.sha1(pickle.dumps(value) if kind != "text" else value.encode("utf-8", "surrogatepass")).hexdigest()[:12]
     except Exception:
         dig = str(desc["seed"])
-    res = {"status": "ok", "counters": {"round_trips": 1, "mtime_sequences_across_second_boundary": int(mount == "direct"), "epoch_mtime_checks": int(mount == "direct"), "writes_over_foreign_content": int(mount == "direct" and desc["seed"] % 5 == 0), "unreachable_path_checks": int(mount == "direct" and desc["seed"] % 3 == 0),
+    res = {"status": "ok", "counters": {"round_trips": 1, "mtime_sequences_across_second_boundary": int(mount == "direct"), "epoch_mtime_checks": int(mount == "direct"), "writes_over_foreign_content": int(mount == "direct" and desc["seed"] % 5 == 0), "writes_next_to_leftover_staging": int(mount == "direct" and desc["seed"] % 7 == 0), "unreachable_path_checks": int(mount == "direct" and desc["seed"] % 3 == 0),
                                         "dst_fallback_mtime_sequences": int(mount == "direct" and desc["seed"] % 4 == 0), "concurrent_mounted_read_groups": int(mount != "direct"), f"kind_{kind}": 1, f"mount_{mount}": 1}, "sets": {"features": feats},
            "nontrivial": nontrivial, "sig": f"{kind}|{mount}|{pathkind}|{enc}|{dig}"}
     if desc["seed"] % 1500 == 0 or bad:
